@@ -108,6 +108,8 @@ func wrapAll(children []jx.Obj, cnames []string) (out []jx.Obj, names []string) 
 		add("tuple[string,"+n+"]", jx.Obj{"type": "array", "items": jx.Arr{jx.Obj{"type": "string"}, cl()}})
 		add("tuple[string]+ai:"+n, jx.Obj{"type": "array", "items": jx.Arr{jx.Obj{"type": "string"}}, "additionalItems": cl()})
 		add("tuple["+n+"]+ai:true", jx.Obj{"type": "array", "items": jx.Arr{cl()}, "additionalItems": true})
+		add("tuple["+n+"]+ai:false", jx.Obj{"type": "array", "items": jx.Arr{cl()}, "additionalItems": false})
+		add("object{p:"+n+"}+ap:false", jx.Obj{"type": "object", "properties": jx.Obj{"p": cl()}, "additionalProperties": false})
 		add("allOf["+n+"]", jx.Obj{"allOf": jx.Arr{cl()}})
 		add("allOf["+n+",obj]+ap", jx.Obj{"allOf": jx.Arr{cl(), jx.Obj{"type": "object", "properties": jx.Obj{"q": jx.Obj{"type": "string"}}}}, "additionalProperties": true})
 	}
